@@ -14,8 +14,11 @@
    fix e424813 (signed denominators are not numbers); the model follows the fix and
    the reader is now proved total on every text. *)
 From MW Require Import Model.Base Model.F64 Model.Num Model.NumFmt Model.Datum Model.Lex Model.Parse
-  Model.Highlight Model.Wire
-  Proofs.LexProofs Proofs.ParseProofs Proofs.ParseTotal Proofs.ParseAllTotal Proofs.HighlightProofs.
+  Model.Highlight Model.Wire Model.VmTypes Model.VmBase Model.Vm Model.Builtins
+  Proofs.LexProofs Proofs.ParseProofs Proofs.ParseTotal Proofs.ParseAllTotal Proofs.HighlightProofs
+  Proofs.BuiltinCoverage.
+From MW Require Gen.Builtins.
+From Coq Require Import Lia.
 Open Scope N_scope.
 
 (* the scanner: tokens or an error *)
@@ -62,6 +65,22 @@ Print Assumptions C06_parse_all_total.
 Theorem C06_highlight_total : forall t index, exists r, highlight t index = Ok r.
 Proof. exact highlight_total. Qed.
 Print Assumptions C06_highlight_total.
+
+(* coverage of the builtin-call correspondence, over the table GENERATED from
+   /repo/marwood/src/vm/builtin/*.rs on every run: a registered builtin whose dispatch
+   reaches the "no model" fall-through (site 99) is one of the explicitly listed names
+   (libm, rand, time, terminal size), for which only the implementation is observed ... *)
+Theorem C06_builtin_coverage : forall b, b < N.of_nat (length Gen.Builtins.builtin_table) ->
+  run_builtin pkg_builtin b (vm_empty 16) = RPanic 99 ->
+  exists s, In s unmodelled_names /\ text_is (builtin_name b) s = true.
+Proof. exact builtin_coverage. Qed.
+Print Assumptions C06_builtin_coverage.
+
+(* ... and the list names nothing that has a model *)
+Theorem C06_unmodelled_list_exact : forall s, In s unmodelled_names ->
+  exists b, In b ids /\ text_is (builtin_name b) s = true /\ unmodelled b = true.
+Proof. exact unmodelled_list_exact. Qed.
+Print Assumptions C06_unmodelled_list_exact.
 
 (* non-vacuity: a text with every kind of token is outside the class and is read;
    an unterminated string is an error value; the loop reads three data *)
